@@ -1,2 +1,2 @@
-(* Proofs/SpecAll.v -- collects the SpecAll*.v files (which are chained: each needs several GB of memory) *)
-From Z80V Require Export Proofs.SpecAllIR.
+(* Proofs/SpecAll.v -- facts about every instruction of the specification (the five generated files) *)
+From Z80V Require Export Proofs.SpecAllSwap Proofs.SpecAllIx Proofs.SpecAllIy Proofs.SpecAllEnv Proofs.SpecAllIR.
